@@ -31,6 +31,7 @@ def floors(tier):
          "programs:with_wrappers_and_identities": 100, "programs:re_evaluated_after_removal": 200, "programs:A_with_Z_measurement": 40, "programs:scored_by_reused_metric_objects": 150, "programs:re_evaluated_after_replacement": 100}
     for m in METRICS:
         f["metric:" + m] = 300
+    f["metric:Metrics_container"] = 300
     return f
 
 
@@ -155,6 +156,20 @@ def check_metrics(prog, circ, klass, rng, ctx, case, stage, pool=None):
             if got != exp:
                 ctx.violation("metric_value_wrong", case, {"metric": name, "construction": mode, "got": got, "expected": exp,
                                                            "quantity": want}, key=f"metric_wrong:{name}")
+    # the same metric through the Metrics container (another public way to the same quantity): a weighted sum of its members
+    try:
+        d = expected["CircuitDepth"]
+        w = [2.0, 3.0]
+        box = gm.Metrics([gm.CircuitDepth(), gm.CircuitDepth(depth_penalty=pen)], metric_weight=w)
+        got = float(box.evaluate(None, circ))
+        box2 = gm.Metrics(["CircuitDepth"])
+        got2 = float(box2.evaluate(None, circ))
+        ctx.count("metric:Metrics_container", 2)
+        if abs(got - (w[0] * d + w[1] * pen(d))) > 1e-9 or abs(got2 - d) > 1e-9:
+            ctx.violation("metric_value_wrong", case, {"metric": "Metrics([CircuitDepth, CircuitDepth(penalty)], weights [2, 3]) / Metrics(['CircuitDepth'])",
+                                                       "got": [got, got2], "expected": [w[0] * d + w[1] * pen(d), d], "quantity": d}, key="metric_wrong:Metrics")
+    except Exception as e:
+        ctx.violation("metric_raises", case, {"metric": "Metrics container", "exception": f"{type(e).__name__}: {e}"[:300]}, key=f"metric_exc:Metrics:{type(e).__name__}")
     # per-register depth
     if small:
         ctx.count("metric:register_depth", 2)
